@@ -80,13 +80,23 @@ INT_TYPES = [np.int64, np.int32, np.int16]
 
 def as_recorded_dtype(case):
     """Recordings often arrive as integer counts: when every sample of the case is an integer that fits, every fourth case hands the SAME values
-    to the library as an integer-typed array (int64 / int32 / int16).  The specification sees the values, not the dtype."""
+    to the library as an integer-typed array (int64 / int32 / int16, up to the full range of the type).  Every eighth case is re-quantised to RAW
+    CONVERTER COUNTS - unsigned 8-bit counts 0 .. 255 or 16-bit counts -20000 .. 20000 -, a new signal whose values the specification sees
+    like any other (q = counts, e = 0): differences of two samples, their negation and their sum do not fit the type of the samples there.
+    The specification sees the values, not the dtype."""
     k = case.get('k', 0)
+    if k % 8 == 3 and not case.get('no_counts') and len(case['q']) and case['q'].max() > case['q'].min():
+        x = (case['q'] - case['q'].min()) / float(case['q'].max() - case['q'].min())
+        if (k // 8) % 2 == 0:
+            cnt, dt = np.round(x * 255).astype(np.int64), np.uint8
+        else:
+            cnt, dt = np.round(x * 40000).astype(np.int64) - 20000, np.int16      # peak-to-peak above 32767 (products of two differences still fit TLC's 32-bit integers)
+        return dict(case, q=cnt, e=0, sig=cnt.astype(dt), sig_dtype=np.dtype(dt).name + ' counts', kind=case['kind'] + ' as ' + np.dtype(dt).name + ' counts')
     if k % 4 != 1 or case['e'] < 0 or case['e'] > 40:
         return case
     vals = case['q'].astype(np.int64) * (1 << int(case['e']))
     dt = INT_TYPES[(k // 4) % 3]
-    if np.abs(vals).max(initial=0) > np.iinfo(dt).max // 8 or np.abs(case['q']).max(initial=0) >= 2 ** 20:
+    if np.abs(vals).max(initial=0) > np.iinfo(dt).max or np.abs(case['q']).max(initial=0) >= 2 ** 20:
         return case
     return dict(case, sig=vals.astype(dt), sig_dtype=np.dtype(dt).name)
 
@@ -186,7 +196,7 @@ def run_corpus(ctx, n_cases, prefixes, seed_offset=0, kinds=None, max_len=900, v
     for case, rec, fails in zip(cases, recs, verdicts):
         o = case['opts']
         fk = ((o.get('find_extrema_kwargs') or {}).get('filter_kwargs') or {})
-        cells.add((o['center_extrema'], o['burst_method'], o['return_samples'], 'n_seconds' if 'n_seconds' in fk else 'n_cycles',
+        cells.add((o['center_extrema'], o['burst_method'], o['return_samples'], 'n_seconds' if fk.get('n_seconds') is not None else 'n_cycles',
                    (o.get('find_extrema_kwargs') or {}).get('boundary', 0) > 0))
         h = hashlib.sha1(json.dumps([rec['sig'][:200], str(o)], default=str).encode()).hexdigest()
         if h not in seen and len(rec['rows']) >= 3:
